@@ -139,6 +139,10 @@ def generate(seed, tier, idx=0):
     case = {"kind": "history", "n_types": n_types, "n_listeners": n_list,
             "ops": ops, "scripts": scripts}
     if rng.random() < 0.3:
+        # what the listeners' notify() returns (index = listener number)
+        case["returns"] = [rng.choice([None, True, False, 1, 0, "handled", [], [0]])
+                           for _ in range(n_list)]
+    if rng.random() < 0.3:
         # listeners that are legal EventListener objects but falsy: an inbox with
         # __len__ (empty until its first delivery) or a permanently false object
         case["listener_kinds"] = [rng.choice(["plain", "inbox", "inbox", "falsy"])
@@ -161,6 +165,9 @@ class Listener(EventListener):
 
     def notify(self, event):
         self.world.delivered(self, event)
+        # notify() has no specified return value: whatever a listener returns
+        # (e.g. 'return self.handle(event)') must not matter to the producer
+        return self.world.returns[self.idx % len(self.world.returns)]
 
 
 class InboxListener(Listener):
@@ -195,6 +202,7 @@ class World:
         self.types = PLAIN[:case["n_types"]]
         kinds = case.get("listener_kinds") or ["plain"] * case["n_listeners"]
         self.listeners = [LISTENER_KINDS[kinds[i]](i, self) for i in range(case["n_listeners"])]
+        self.returns = case.get("returns") or [None]
         self.log = []
         self.counts = {}
         self.depth = 0
